@@ -1060,6 +1060,32 @@ def _derive_cfg(out: Built):
                     edges.append(E(src, out.blocks[s], L(T.Return)))
             else:
                 edges.append(E(src, gtirb.ProxyBlock(module=m), L(T.Return)))
+    # C11 only ("cfgnoise"): determinism is promised for every module, also for one whose return edges are not
+    # the ones the listing implies - returning blocks of one function with different return targets, a return
+    # edge missing, an extra one
+    for n in (c.spec.get("cfgnoise") or []):
+        if not isinstance(n, int) or n < 0:
+            continue
+        rets = [i for i, e in enumerate(edges) if e.label.type == T.Return]
+        srcs = [b.gidx for b in c.blocks if b.code and b.units[-1].kind == "ret"]
+        code = [b.gidx for b in c.blocks if b.code]
+        if n % 3 == 0:
+            if rets:
+                del edges[rets[(n // 3) % len(rets)]]
+        elif n % 3 == 1:
+            if srcs and code:
+                e = E(out.blocks[srcs[(n // 3) % len(srcs)]], out.blocks[code[(n // 7) % len(code)]], L(T.Return))
+                if e not in edges:
+                    edges.append(e)
+        else:
+            # the returning blocks of one function get different return sites
+            for f, idxs in sorted(c.funcs.items()):
+                rb = [g for g in idxs if g in srcs]
+                if len(rb) >= 2:
+                    for k, g in enumerate(rb):
+                        e = E(out.blocks[g], out.blocks[code[(n // 3 + k) % len(code)]], L(T.Return))
+                        if e not in edges:
+                            edges.append(e)
     # the CFG is a set: the order in which its edges were added (which is the order the library's loops over
     # out_edges / in_edges see them) carries no meaning, so it is part of the generated input ("eorder": 0 keeps
     # the derivation order, k > 0 is a permutation drawn from a fixed congruential sequence seeded with k)
